@@ -141,6 +141,28 @@ Proof.
 Qed.
 Print Assumptions C10_bc_normal_continuity.
 
+(* border-border reference edge (both poles on the border of an open grid or of a truncated support): each pole's fan
+   is built with the cell count of ITS OWN pole (nc1 around vertex 1, nc2 around vertex 2; the translator pins the
+   argument lists of the four dispatch branches), and an open fan with nc cells carries the documented fluxes
+   (nc-1)/nc before, (2-nc)/(2 nc) on and 1/nc after the reference edge *)
+Theorem C10_bc_poles_use_own_cell_count :
+  (forall eid len fan1 fan2 g1 s1 g2 s2 nc1 nc2 ref1 ref2 um up lm lp,
+     bc_coeffs eid len fan1 fan2 (g1 :: s1) (g2 :: s2) nc1 nc2 ref1 ref2 um up lm lp =
+     border_coeffs eid len nc1 fan1 (g1 :: s1) ref1 (- (1)) ++ border_coeffs eid len nc2 fan2 (g2 :: s2) ref2 1 ++
+     reference_part eid len um up lm lp) /\
+  (forall eid len nc sorted ref sign s, (0 < nc)%nat -> ~ len (eid s) == 0 ->
+     border_value eid len nc sorted ref sign s * len (eid s) ==
+     if Nat.ltb (pos_of (eid s) sorted) ref then (match snd s with 0%nat => - sign | _ => sign end) * (1 - qn nc) / qn nc
+     else if Nat.eqb (pos_of (eid s) sorted) ref then (match snd s with 0%nat => - sign | _ => sign end) * (2 - qn nc) / (2 * qn nc)
+     else (match snd s with 0%nat => - sign | _ => sign end) / qn nc).
+Proof.
+  exact (conj (fun eid len fan1 fan2 g1 s1 g2 s2 nc1 nc2 ref1 ref2 um up lm lp =>
+                 border_border_uses_own_count eid len fan1 fan2 g1 s1 g2 s2 nc1 nc2 ref1 ref2 um up lm lp
+                   (eq_refl : bc_border_test_uses_sorted_edges = true))
+              border_flux_values).
+Qed.
+Print Assumptions C10_bc_poles_use_own_cell_count.
+
 (* RBC = n x BC pointwise on every barycentric element, for every coefficient triple *)
 Theorem C10_rbc_is_n_cross_bc :
   forall (T : tri) (c0 c1 c2 : R) (st : R2),
